@@ -5,7 +5,8 @@
    syntax of histories and traces are shared).
 
    Per inbound message the oracle looks at the message as the COUNTERPARTY wrote it:
-     F        = the value of its MsgSeqNum FIELD (the first token whose tag is 34),
+     F        = the value of its MsgSeqNum FIELD (the first token whose tag is 34; tokens are cut the FIX way:
+                the content of a data field is the number of bytes its Length field announces),
      PossDup  = PossDupFlag (43) is Y,  Orig/Sending = OrigSendingTime (122) / SendingTime (52),
      CompIDs  = SenderCompID (49) / TargetCompID (56) against the session identity,
      decodable= 8,9,35 lead, the type is known, no tag occurs twice, every mandatory header and body
@@ -45,6 +46,47 @@ Definition has (t : N) (toks : list (bytes * bytes)) : bool :=
 Definition flagY (v : option bytes) : bool := match v with Some (c :: _) => c =? 89 | _ => false end.
 Definition val (v : option bytes) : bytes := match v with Some b => b | None => [] end.
 
+(* the tokens of a message as the counterparty wrote it: tag=value SOH ..., where the value of the field that
+   follows a Length field (type Length: SecureDataLen 90, XmlDataLen 212, RawDataLength 95, ...) with value n is
+   the next n bytes whatever they are (they may contain SOH) -- FIX "data" fields.  `lens` = the Length tags of
+   the schema.  Without such fields this is Sess.Msg.tokens. *)
+Fixpoint toks_d (fuel : nat) (lens : list N) (raw : bytes) (pending : option N) : list (bytes * bytes) :=
+  match fuel with
+  | O => []
+  | S f =>
+    match raw with
+    | [] => []
+    | _ =>
+      let plain :=
+        match cut SOH raw with
+        | (tok, Some rest) =>
+          let '(t, v) := match cut ch_eq tok with (a, Some b) => (a, b) | (a, None) => (a, []) end in
+          let pend := match undec t with
+                      | Some tag => if existsb (N.eqb tag) lens then undec v else None
+                      | None => None
+                      end in
+          (t, v) :: toks_d f lens rest pend
+        | (_, None) => []
+        end in
+      match pending with
+      | None => plain
+      | Some n =>
+        match cut ch_eq raw with
+        | (t, Some r) =>
+          let k := N.to_nat n in
+          if forallb (fun b => negb (b =? SOH)) t && (k <=? length r)%nat then
+            match skipn k r with
+            | 1 :: rest => (t, firstn k r) :: toks_d f lens rest None
+            | _ => plain
+            end
+          else plain
+        | _ => plain
+        end
+      end
+    end
+  end.
+Definition tokens_d (lens : list N) (raw : bytes) : list (bytes * bytes) := toks_d (length raw) lens raw None.
+
 (* CheckSum: the last seven bytes are "10=ccc|", ccc = byte sum of everything before, mod 256 *)
 Definition chk_ok (raw : bytes) : bool :=
   let n := length raw in
@@ -64,8 +106,8 @@ Fixpoint nodup_tags (toks : list (bytes * bytes)) : bool :=
   | (t, _) :: r => negb (existsb (fun tv => beq (fst tv) t) r) && nodup_tags r
   end.
 
-Definition decodable (sc : schema) (raw : bytes) : bool :=
-  let toks := tokens raw in
+Definition decodable (sc : schema) (lens : list N) (raw : bytes) : bool :=
+  let toks := tokens_d lens raw in
   match toks with
   | (t8, _) :: (t9, _) :: (t35, mt) :: _ =>
     beq t8 [56] && beq t9 [57] && beq t35 [51; 53] && nodup_tags toks &&
@@ -152,10 +194,10 @@ Definition compid_wrong (o : ost) (toks : list (bytes * bytes)) : bool :=
   pr_ec (sp_par (o_sp o)) && o_ids o &&
   negb (beq (val (fld T_TargetCompID toks)) (o_own o) && beq (val (fld T_SenderCompID toks)) (o_peer o)).
 
-Definition check_msg (sc : schema) (o : ost) (first : bool) (raw : bytes) (seg : list event) (ret : Z) : bool :=
-  let toks := tokens raw in
+Definition check_msg (sc : schema) (lens : list N) (o : ost) (first : bool) (raw : bytes) (seg : list event) (ret : Z) : bool :=
+  let toks := tokens_d lens raw in
   let dl := has_deliver seg in
-  if negb (decodable sc raw) then negb dl && has_out [51] seg
+  if negb (decodable sc lens raw) then negb dl && has_out [51] seg
   else if negb first then true
   else
     match seq_field toks with
@@ -171,24 +213,24 @@ Definition check_msg (sc : schema) (o : ost) (first : bool) (raw : bytes) (seg :
       else seq_clauses o F (o_exp o) toks seg ret
     end.
 
-Fixpoint check_msgs (sc : schema) (o : ost) (first : bool) (msgs : list bytes) (segs : list (list event * Z)) : bool :=
+Fixpoint check_msgs (sc : schema) (lens : list N) (o : ost) (first : bool) (msgs : list bytes) (segs : list (list event * Z)) : bool :=
   match msgs, segs with
-  | raw :: ms, (seg, ret) :: ss => check_msg sc o first raw seg ret && check_msgs sc o false ms ss
+  | raw :: ms, (seg, ret) :: ss => check_msg sc lens o first raw seg ret && check_msgs sc lens o false ms ss
   | _, _ => true
   end.
 
 (* identity an acceptor takes from a Logon it accepted (first message of the operation); a Logon further
    down the same operation makes the identity unknown *)
-Definition learn_ids (o : ost) (msgs : list bytes) (segs : list (list event * Z)) : ost :=
+Definition learn_ids (lens : list N) (o : ost) (msgs : list bytes) (segs : list (list event * Z)) : ost :=
   match sp_role (o_sp o) with
   | Initiator => o
   | Acceptor =>
-    let is_logon raw := beq (val (fld T_MsgType (tokens raw))) [65] in
+    let is_logon raw := beq (val (fld T_MsgType (tokens_d lens raw))) [65] in
     match msgs, segs with
     | raw :: ms, (_, ret) :: _ =>
       let o1 :=
         if is_logon raw && negb (o_state o =? 1) && (ret =? 1)%Z then
-          let t := tokens raw in
+          let t := tokens_d lens raw in
           mkO (o_sp o) (val (fld T_TargetCompID t)) (val (fld T_SenderCompID t)) true (o_state o) (o_exp o) (o_ctrl o)
         else o in
       if existsb is_logon ms then mkO (o_sp o1) (o_own o1) (o_peer o1) false (o_state o1) (o_exp o1) (o_ctrl o1) else o1
@@ -208,7 +250,7 @@ Definition observe (o : ost) (st : step) : ost :=
   | None => o
   end.
 
-Definition c19_step (sc : schema) (o : ost) (oper : op) (st : step) : bool * ost :=
+Definition c19_step (sc : schema) (lens : list N) (o : ost) (oper : op) (st : step) : bool * ost :=
   match oper with
   | OStart p _ => (true, observe (of_start p) st)
   | ORestart =>
@@ -218,22 +260,22 @@ Definition c19_step (sc : schema) (o : ost) (oper : op) (st : step) : bool * ost
   | OIn chunks =>
     let msgs := fst (frames (concat chunks)) in
     let segs := segments (st_events st) [] in
-    (check_msgs sc o true msgs segs, observe (learn_ids o msgs segs) st)
+    (check_msgs sc lens o true msgs segs, observe (learn_ids lens o msgs segs) st)
   | _ => (true, observe o st)
   end.
 
-Fixpoint c19_steps (sc : schema) (o : ost) (ops : list op) (tr : trace) : bool :=
+Fixpoint c19_steps (sc : schema) (lens : list N) (o : ost) (ops : list op) (tr : trace) : bool :=
   match ops, tr with
   | [], [] => true
   | oper :: ops', st :: tr' =>
-    let '(ok, o') := c19_step sc o oper st in
-    ok && c19_steps sc o' ops' tr'
+    let '(ok, o') := c19_step sc lens o oper st in
+    ok && c19_steps sc lens o' ops' tr'
   | _, _ => false
   end.
 
 Definition ost0 : ost := of_start default_sp.
 
-Definition c19_ok (sc : schema) (ops : list op) (tr : trace) : bool := c19_steps sc ost0 ops tr.
+Definition c19_ok (sc : schema) (lens : list N) (ops : list op) (tr : trace) : bool := c19_steps sc lens ost0 ops tr.
 
-Definition c19_ok_line (sc : schema) (case result : bytes) : bool :=
-  c19_ok sc (parse_history case) (parse_trace result).
+Definition c19_ok_line (sc : schema) (lens : list N) (case result : bytes) : bool :=
+  c19_ok sc lens (parse_history case) (parse_trace result).
